@@ -33,6 +33,7 @@ RULE += (' Also: a future-style source whose plain __anext__ starts the fetch wh
 RULE += (' Also: a synchronous non-iterator collection as tee source.')
 RULE += (' Also: a child asking for an item the source has already handed out receives it without a single suspension (boundary monitor, class sources, also without aclose).')
 RULE += (' Also: class-based sources that also offer (and refuse) the synchronous protocol.')
+RULE += (' Also: a source whose __aiter__ must not be called again once iteration has begun.')
 ASSUMPTIONS = ["without a lock only non-suspending sources are claimed (as the property states)",
                "class-based cancellation-safe source: an item is consumed only after the last suspension of __anext__",
                "consumers close their child when they stop (owner closes what it advanced)"]
@@ -90,8 +91,8 @@ def cases(tier, seed, shard, nshards):
         # (... and it is NOT cancellation safe - a cancelled request has taken its item for good - so it is used only
         # in scenarios without a cancelled consumer)
         # (... and a source that has nothing but __aiter__/__anext__: nothing to close, buffers managed all the same)
-        case["flav"] = rng.choice(["async_class", "async_class", "async_class_eagerstart", "async_class_bare"]) \
-            if case["cancel_task"] is None else rng.choice(["async_class", "async_class", "async_class_bare"])
+        case["flav"] = rng.choice(["async_class", "async_class", "async_class_eagerstart", "async_class_bare", "async_class_aiter_once"]) \
+            if case["cancel_task"] is None else rng.choice(["async_class", "async_class", "async_class_bare", "async_class_aiter_once"])
         if not case["src_susp"] and rng.random() < 0.25:
             # a synchronous collection that is not its own iterator (asked for an iterator twice, it reports it): the
             # tee draws ONE iterator from it, whatever the number of children
@@ -140,7 +141,7 @@ def execute(case, choose, cancel_at=None):
                 # the source has already handed out the item this child asks for (a sibling fetched it): it sits in
                 # this child's buffer, and - as for itertools.tee - the child provides it at once, whatever a sibling
                 # is doing (e.g. holding the lock while it waits for the source)
-                buffered = (case["flav"] in ("async_class", "async_class_bare") and not case.get("nested") and st.pos > k)
+                buffered = (case["flav"] in ("async_class", "async_class_bare", "async_class_aiter_once") and not case.get("nested") and st.pos > k)
                 before = tasks[c].resumes
                 try:
                     item = await child.__anext__()
